@@ -21,6 +21,6 @@ Deliverables, per property, in the directory /tmp/seed-%s/OUT/<PROPERTY-ID>/ (cr
   patch.diff   — `git diff` of the source change only (paths relative to the repo root, applies with `git apply` on a clean checkout of HEAD)
   demo_test.go (or demo/main.go) — a demonstration that FAILS with the change and PASSES without it: a Go test file that can be dropped into a named package directory of the repo (say which one in the first comment line, e.g. `// package dir: internal/filter`) and run with `go test ./<dir>/ -run TestDemo...`
   meta.json    — {"property": "<ID>", "summary": "<one sentence: what the change does>", "needs": "<what specific input/sequence/fault/interleaving is needed for the defect to manifest>", "files": ["..."], "demo_dir": "<package dir for demo_test.go>", "demo_run": "<-run pattern>", "ran": ["<commands you ran and their outcome>"]}
-Verify yourself, in the worktree: with the patch applied the demo fails and the named existing tests pass; with the patch reverted (git stash / git checkout -- .) the demo passes. Leave the worktree with the patch of the LAST property reverted (clean tree; OUT/ is untracked, that is fine). Do not remove the worktree; I will.
+Verify yourself, in the worktree: with the patch applied the demo fails and the named existing tests pass; with the patch reverted (`git checkout -- .` inside YOUR worktree; never use `git stash`, the stash is shared with other worktrees) the demo passes. Leave the worktree with the patch of the LAST property reverted (clean tree; OUT/ is untracked, that is fine). Do not remove the worktree; I will.
 
 Report back briefly: for each property the summary, what it needs to manifest, and the verification commands with outcomes.""" % (tag, tag, "\n\n".join(txt), tag))
